@@ -39,6 +39,30 @@ P_SEMI = {"C02", "C08", "C09", "C13", "C20"}
 
 TABLE = []  # entries, also used by the level-2 lemmas
 
+# documented defaults (class docstrings: "Default: 2/3" -- Orszag's rule for quadratic terms; "Default is 1/2 because
+# the default polynomial has a cubic term"; "num_circle_points ... Default: 16", "circle_radius ... Default: 1.0")
+from fractions import Fraction  # noqa: E402
+
+DOC_DEFAULTS = {"dealiasing_fraction": Fraction(2, 3), "num_circle_points": 16, "circle_radius": 1.0}
+CUBIC_BY_DEFAULT = {"AllenCahn", "SwiftHohenberg", "CahnHilliard", "GrayScott"}
+
+
+def _dim_only(cond):
+    """does the rejection condition depend on the dimension alone (2-d only / 3-d only classes)?"""
+    try:
+        return isinstance(cond({"num_spatial_dims": 0}), bool)
+    except Exception:
+        return False
+
+
+def documented_defaults(cls):
+    d = dict(DOC_DEFAULTS)
+    if cls.__name__ in CUBIC_BY_DEFAULT:
+        d["dealiasing_fraction"] = Fraction(1, 2)
+    if cls.__name__ == "BelousovZhabotinsky":
+        d.pop("dealiasing_fraction")   # (its docstring states no default fraction and C03 does not list it)
+    return d
+
 
 def _frac(e):
     return sym.real(e, "frac", lo=0, lo_strict=True, hi=1)
@@ -181,11 +205,28 @@ def register(q, cls, *, params, sigma, channels=lambda p: 1, nonlin=nl_zero, lin
                     return (D, sym.pos_real(e, "L"), N, sym.real(e, "dt")), kw
                 lab = f"D={D}" + "".join(f",{k}={val}" for k, val in v.items() if k not in ("kw",)) + (f",order={o}" if o is not None else "")
                 cases.append(Case(lab, build))
+    if not linear and any(n in sig.parameters for n in DOC_DEFAULTS):
+        # the options the properties rely on at their DOCUMENTED default (C03: 2/3 rule for quadratic, 1/2 for cubic
+        # terms; C02: 16 contour points on the unit circle): constructed without passing them
+        D0 = next((D for D in dims if not any(cond({"num_spatial_dims": D}) is True for _, cond in raises if _dim_only(cond))), dims[0])
+
+        def build_defaults(e, D=D0, v=variants[0]):
+            N = sym.integer(e, "N", lo=1)
+            kw = {k: val for k, val in dict(params(e, D, v), **v.get("kw", {})).items() if k not in DOC_DEFAULTS}
+            if normalized:
+                return (), dict(num_spatial_dims=D, num_points=N, **kw)
+            return (D, sym.pos_real(e, "L"), N, sym.real(e, "dt")), kw
+        cases.append(Case(f"D={D0},documented defaults (dealiasing fraction, contour)", build_defaults))
 
     def spec(*a, **k):
         ba = sig.bind(*a, **k)
+        passed = set(ba.arguments) | set(ba.arguments.get("kwargs", {}))
         ba.apply_defaults()
-        return expected(entry, dict(ba.arguments))
+        args = dict(ba.arguments)
+        for name, val in documented_defaults(cls).items():
+            if name in sig.parameters and name not in passed:
+                args[name] = val      # (the documented value, NOT the default found in the code's signature)
+        return expected(entry, args)
 
     def wrap(cond):
         def w(*a, **k):
